@@ -204,6 +204,24 @@ fn main() {
                 }
             }
         }
+        "big" => {
+            // shaders whose generated module exceeds the 64 KiB pipe buffer: `count` shaders with n, n+7, .. bindings
+            let n: usize = args[2].parse().unwrap();
+            let count: usize = args[3].parse().unwrap();
+            for k in 0..count {
+                let nb = n + 7 * k;
+                let mut s = String::new();
+                for i in 0..nb {
+                    s.push_str(&format!("struct S{k}_{i} {{ a: vec4<f32>, b: array<vec4<f32>, 2> }}\n@group(0) @binding({i}) var<uniform> u{k}_{i}: S{k}_{i};\n"));
+                }
+                s.push_str("@compute @workgroup_size(1) fn main() {\n");
+                for i in 0..nb {
+                    s.push_str(&format!("    let x{i} = u{k}_{i}.a.x;\n"));
+                }
+                s.push_str("}\n");
+                emit(&format!("big:{nb}:{k}"), &s);
+            }
+        }
         "family" => {
             let n: usize = args[3].parse().unwrap();
             let src = match args[2].as_str() {
